@@ -424,22 +424,42 @@ def A9(ctx: Ctx) -> RuleResult:
         for pg, flow, binds, effs in lp.paths:
             msg = next((p for t, p in norm_guards(pg) if isinstance(t, Attr) and t.name == 'is_message'), None)
             if msg is True:
+                outer_names = [x.strip() for x in lp.target.strip('()').split(',')]
+                entries = []  # (key, value, iterable, inner target names)
                 for e in effs:
                     for il in _loops(e):
-                        items = isinstance(il.iter, Call) and call_name(il.iter) == 'items' and isinstance(call_recv(il.iter), Call) and call_name(call_recv(il.iter)) == 'leaf_fields'
-                        if not items:
-                            r.fail('MessageType.leaf_fields:nested-iter', f'nested listing is iterated as {str(il.iter)[:60]} (a mapping must be iterated with .items())', fi.where)
+                        inner_names = [x.strip() for x in il.target.strip('()').split(',')]
                         for ipg, iflow, ibinds, ieffs in il.paths:
                             for st in ieffs:
                                 if isinstance(st, Store) and isinstance(st.target, Sub):
-                                    k = st.target.index
-                                    outer_names = [x.strip() for x in lp.target.strip('()').split(',')]
-                                    inner_names = [x.strip() for x in il.target.strip('()').split(',')]
-                                    want_parts = [Fmt(Sym(f'each:{outer_names[0]}'), '', ''), Const('.'), Fmt(Sym(f'each:{inner_names[0]}'), '', '')] if len(outer_names) == 2 and len(inner_names) == 2 else None
-                                    if want_parts and isinstance(k, Template) and list(k.parts) == want_parts and st.value == Sym(f'each:{inner_names[1]}'):
-                                        ok_nested = True
-                                    else:
-                                        r.fail('MessageType.leaf_fields:key', f'nested leaves are stored under {k!r}, expected "<name>.<subname>"', fi.where)
+                                    entries.append((st.target.index, st.value, il.iter, inner_names))
+                    # result.update((key, value) for ... in nested.items()) / update({key: value for ...})
+                    if isinstance(e, Call) and call_name(e) == 'update' and len(e.args) == 1 and isinstance(e.args[0], Comp) and len(e.args[0].gens) == 1:
+                        comp = e.args[0]
+                        tgt, it, ifs = comp.gens[0]
+                        if isinstance(comp.elt, TupleT) and len(comp.elt.items) == 2 and not ifs:
+                            entries.append((comp.elt.items[0], comp.elt.items[1], it, [x.strip() for x in tgt.strip('()').split(',')]))
+
+                def parts(k: Term):
+                    if isinstance(k, Template):
+                        return [x.value if isinstance(x, Fmt) and not x.spec else x for x in k.parts]
+                    if isinstance(k, Op) and k.op == '+':
+                        out = []
+                        for x in k.args:
+                            out.extend(parts(x))
+                        return out
+                    if isinstance(k, Call) and isinstance(k.func, Ext) and k.func.name == 'str' and k.args:
+                        return parts(k.args[0])
+                    return [k]
+                for k, v, it, inner_names in entries:
+                    items = isinstance(it, Call) and call_name(it) == 'items' and isinstance(call_recv(it), Call) and call_name(call_recv(it)) == 'leaf_fields'
+                    if not items:
+                        r.fail('MessageType.leaf_fields:nested-iter', f'nested listing is iterated as {str(it)[:60]} (a mapping must be iterated with .items())', fi.where)
+                    want_parts = [Sym(f'each:{outer_names[0]}'), Const('.'), Sym(f'each:{inner_names[0]}')] if len(outer_names) == 2 and len(inner_names) == 2 else None
+                    if want_parts and parts(k) == want_parts and v == Sym(f'each:{inner_names[1]}'):
+                        ok_nested = True
+                    else:
+                        r.fail('MessageType.leaf_fields:key', f'nested leaves are stored under {k!r}, expected "<name>.<subname>"', fi.where)
             elif msg is False:
                 outer_names = [x.strip() for x in lp.target.strip('()').split(',')]
                 for st in effs:
